@@ -19,7 +19,11 @@ def catalogue():
     s2 = [st("NewIssue", 1), st("AddEvent", 1, "label"), st("AddEvent", 1, "label"), st("AddEvent", 1, "state"), st("Round", fail="notes:1"),
           st("Round", fail="none"), st("Round", fail="none"), st("AddEvent", 1, "comment"), st("AddEvent", 1, "desc"), st("AddEvent", 1, "desc"),
           st("Round", fail="states:1"), st("EditNote", 1, k=1), st("EditNote", 1, k=1), st("Round", fail="none"), st("Round", fail="none")]
-    return [{"name": "hand-1", "steps": s1}, {"name": "hand-2", "steps": s2}]
+    # an issue renamed before it is first imported, renamed again, then listed again by later rounds (nothing new; an unrelated comment)
+    s3 = [st("NewIssue", 1), st("AddEvent", 1, "title"), st("Round", fail="none"), st("AddEvent", 1, "title"), st("Round", fail="none"), st("Round", fail="none"),
+          st("AddEvent", 1, "comment"), st("Round", fail="none"), st("NewIssue", 2), st("AddEvent", 2, "title"), st("AddEvent", 2, "title"), st("Round", fail="notes:2"),
+          st("AddEvent", 2, "title"), st("Round", fail="none"), st("Round", fail="none")]
+    return [{"name": "hand-1", "steps": s1}, {"name": "hand-2", "steps": s2}, {"name": "renamed-before-first-import", "steps": s3}]
 
 
 def simulate(c, n):
@@ -121,7 +125,7 @@ def run_scheds(c, scheds, tag):
 def run(c):
     d = c.specdir()
     with open(os.path.join(d, "MC_Bridge_run.cfg"), "w") as f:
-        f.write("SPECIFICATION Spec\nCONSTANTS Issue = {1, 2}  Margin = 5  MaxEv = %d  MaxRounds = 3\nINVARIANTS Complete CursorRule\nPROPERTIES Monotone Idempotent\nCHECK_DEADLOCK FALSE\n" % (3 if c.tier == "quick" else 4))
+        f.write("SPECIFICATION Spec\nCONSTANTS Issue = {1, 2}  Margin = 5  MaxEv = %d  MaxRounds = 3\nINVARIANTS Complete TitleFollows CursorRule\nPROPERTIES Monotone Idempotent\nCHECK_DEADLOCK FALSE\n" % (3 if c.tier == "quick" else 4))
     c.tlc_model("MC_Bridge", "MC_Bridge_run.cfg", timeout=3400, label="2 issues, tracker growth, <= 3 rounds, failure of any request class")
     scheds = catalogue() + simulate(c, 40 if c.tier == "quick" else 1500)
     sessions = run_scheds(c, scheds, "main")
